@@ -8,7 +8,9 @@ PROP = dict(
              monitors=["dispatch_nil_safe (an item satisfying the archiver's invariant is processed without a panic)",
                        "not_archived_untouched (an item in another state is returned as it came)",
                        "archiver_establishes_invariant (an item prepared by the real archiver.ProcessBody, which returned nil, has response, MIME and parsed URL set)"]),
-        dict(driver="fuzz", binary="zsafe", quick=12000, thorough=300000, shard=4000,
+        dict(driver="dcmatch", binary="zsafe", quick=2500, thorough=60000, shard=1250,
+             monitors=["match_total (the real domainscrawl.Match returned for this configuration and this link text)"]),
+        dict(driver="fuzz", binary="zsafe", quick=12800, thorough=300000, shard=4000,
              monitors=["no_panic (recover() in the child caught nothing)",
                        "no_hang (the child answered within the watchdog; a missing answer counts when reproduced on a fresh child with the watchdog doubled)",
                        "no_crash (the child process survived: no fatal error, no out-of-memory; a death counts when reproduced on a fresh child)"]),
